@@ -256,3 +256,5 @@ def run(ctx):
     reader_rules(ctx, P)
     one_batch_routine(ctx, P)
     sig.text_mode_selection(ctx, P)
+    # the v6 salt is fed to the raw digest, never through the canonicalising wrapper (a salt octet 0x0A is not a line ending)
+    sig.salt_fed_at_every_hasher(ctx, P)
